@@ -156,6 +156,23 @@ static void pointer_shapes(int id, int qr, int from, int qtype)
 			p[ptrpos] = 0xc0 | (target >> 8); p[ptrpos + 1] = target;
 			add_shape(p, n, NULL, 0, from, "%s, name = %s pointer to offset %d of a %d-byte message", qr ? "answer" : "query", variant == 0 ? "" : variant == 1 ? "label 'z' +" : "label 'pa' +", target, n);
 		}
+	/* the pointer leads to a length byte that is the very last byte of the datagram: every class of length byte */
+	{
+		static const int LB[] = { 0x01, 0x05, 0x3f, 0x40, 0x7f, 0x80, 0x9f, 0xbf };
+		for (unsigned l = 0; l < sizeof LB / sizeof LB[0]; l++) for (int variant = 0; variant < 2; variant++) for (int extra = 0; extra < 2; extra++) {
+			int n = 12;
+			memset(p, 0, sizeof p);
+			p[0] = id >> 8; p[1] = id; p[2] = qr ? 0x84 : 0x01; p[5] = 1;
+			if (variant) { p[n++] = 1; p[n++] = 'x'; }
+			int ptrpos = n; n += 2;
+			p[n++] = qtype >> 8; p[n++] = qtype; p[n++] = 0; p[n++] = 1;
+			if (extra) p[n++] = 'q';                       /* one label byte present, the rest missing */
+			int target = n - extra;
+			p[target] = LB[l]; if (!extra) n++;
+			p[ptrpos] = 0xc0 | (target >> 8); p[ptrpos + 1] = target;
+			add_shape(p, n, NULL, 0, from, "%s, name = %spointer to a length byte 0x%02x %s the end of the %d-byte message", qr ? "answer" : "query", variant ? "label 'x' + " : "", LB[l], extra ? "one byte before" : "at", n);
+		}
+	}
 	/* last label reaching exactly to / one past / far past the end */
 	for (int over = 0; over <= 3; over++) {
 		int n = 12;
